@@ -102,7 +102,7 @@ Lemma to_cut_linewise b o :
 Proof.
   intros Ht f t Hf Hft Htl a e. unfold to_cut.
   destruct (operator_range (bdoc b) o) as [s x] eqn:Er. cbn [fst snd] in *.
-  rewrite Ht. cbn [is_linew selection_type].
+  rewrite Ht. cbn [is_linew is_block selection_type negb andb orb].
   replace (x + bcur b) with t by (unfold t; lia).
   replace (s + bcur b) with f by (unfold f; lia).
   destruct (len (btext b) <? t) eqn:E; [lia|].
